@@ -117,7 +117,11 @@ class WebApp:
         return path
 
     def stop_script(self, path) -> bool:
-        return self._jobs.stop_job(path)
+        # Jobs are registered under the escaped path (see queue_script).
+        script_control = self._scripts.get(path, None)
+        if script_control is None:
+            return False
+        return self._jobs.stop_job(script_control.path)
 
     def stop_current(self) -> bool:
         return self._jobs.stop_current()
